@@ -46,6 +46,8 @@ def wf_sub(x: int) -> int:
     SUB_ATTEMPTS[inv_id] = attempt
     wf = inv.task.wf
     SUB_LOG.append({"inv": inv_id, "attempt": attempt, "values": (("random", wf.random()), ("uuid", wf.uuid()))})
+    if x == 2:
+        raise ValueError("sub-task: fails for good")  # (not retriable: the sub-invocation ends FAILED)
     if attempt == 1:
         raise RetryError("sub-task: once more")
     return x + 100
@@ -86,7 +88,7 @@ def wf_prog(prog: list, fail_until: int = 0, die_at: int = -1, tag: int = 0, ret
             values.append(("utc_now", task.wf.utc_now().isoformat()))
         elif op == "uuid":
             values.append(("uuid", task.wf.uuid()))
-        elif op in ("exec0", "exec1"):
+        elif op in ("exec0", "exec1", "exec2"):
             r = task.wf.execute_task(sub, int(op[-1]))
             values.append((op, str(r.invocation_id)))
         else:
